@@ -21,6 +21,7 @@ struct Th {
     uint64_t sleep_seq = 0;                // sequence number when the current sleep began
     bool ever_ran = false;
 };
+static bool g_waitq = false;      // config suffix 'w': the sleeps go through a wait queue (condition_variable::wait_no_lock) instead of thread_usleep
 static std::vector<Th> T; static int K; static std::string obs; static int slots; static uint64_t seqno;
 
 static void deliver(int from, int to, int e) {
@@ -59,7 +60,14 @@ static void run(int me) {
         uint64_t len = op == OP_SLEEPINF ? ~0ull : (uint64_t)(op - OP_SLEEP0) * TICK;
         T[me].state = 2; T[me].sleep_start = sv::vnow; T[me].sleep_len = len; T[me].sleep_seq = ++seqno;
         errno = 0;
-        int r = thread_usleep(len);
+        int r;
+        if (!g_waitq) r = thread_usleep(len);
+        else {      // same contract through the waitq-based sleep: "full duration" shows as -1/ETIMEDOUT there
+            photon::condition_variable cv;
+            r = cv.wait_no_lock(len == ~0ull ? Timeout() : Timeout(len));
+            if (r < 0 && errno == ETIMEDOUT) { r = 0; errno = 0; }
+            else if (r == 0) pmc_violation("waitq-sleep-returned-0", "wait_no_lock(%llu) returned 0 although nobody notifies", (unsigned long long)len);
+        }
         int e = errno; uint64_t now = sv::vnow;
         T[me].state = 1;
         if (r == 0) {
@@ -99,6 +107,7 @@ static void on_deadlock() {
 
 void pmc_run(const char* config) {
     if (sscanf(config, "k%ds%d", &K, &slots) != 2) pmc_broken("bad config");
+    g_waitq = config[strlen(config) - 1] == 'w';
     T.clear(); T.resize(K); obs.clear(); seqno = 0;
     pmc_window(0);
     sv::init();
@@ -118,8 +127,11 @@ void pmc_run(const char* config) {
 static const PmcConfig CFG[] = {
     {"k2s2", 3, {0,0}, {0,0}, {0,0}, {0,0}, "2 threads x 2 ops: 10^4 programs"},
     {"k3s1", 3, {0,0}, {0,0}, {0,0}, {0,0}, "3 threads x 1 op"},
+    {"k2s2w", 3, {0,0}, {0,0}, {0,0}, {0,0}, "the same programs with every sleep done through a wait queue (timed condition_variable wait)"},
+    {"k3s1w", 3, {0,0}, {0,0}, {0,0}, {0,0}, ""},
     {"k2s3", 2, {0,0}, {0,0}, {0,0}, {0,0}, "2 threads x 3 ops: 10^6 programs"},
     {"k3s2", 2, {0,0}, {0,0}, {0,0}, {0,0}, "3 threads x 2 ops: 10^6 programs"},
+    {"k2s3w", 2, {0,0}, {0,0}, {0,0}, {0,0}, ""},
 };
 const PmcConfig* pmc_configs(int* n) { *n = sizeof CFG / sizeof CFG[0]; return CFG; }
 const char* pmc_property(void) { return "C04"; }
